@@ -360,7 +360,7 @@ func c17FarPointer() ([]byte, string) {
 
 func c17Run(c *core.Ctx, args []string) {
 	c.Res.Level = "exploration"
-	c.Res.Rule = "(a) DNS responses built by the independent builder golang.org/x/net/dns/dnsmessage, with and without compression: every question name of the label-count x label-length grid {1,2,3,64,127}x{1,2,62,63} (up to 255 octets); every record sequence of length <=2 (thorough <=3) over {A, AAAA, CNAME, PTR, MX, TXT} x every section placement; the stored entry (question name, A/AAAA/CNAME/PTR records) must equal the values fed to the builder; pointer chains of depth 1..4; 16 malformed shapes (pointer loops, pointers past the end, labels 64..191, truncated/overrunning records) and every truncation of one instance per shape must be rejected with an error; mDNS A/AAAA host names in every section; NBNS node status names. (b) merge algebra, complete: all 162x162 NameEntry pairs, and every update sequence of length <=3 over 3 names through each of the five Host.Update*Name on a real host. distinct non-trivial = distinct messages / entry pairs"
+	c.Res.Rule = "(a) DNS responses built by the independent builder golang.org/x/net/dns/dnsmessage, with and without compression: every question name of the label-count x label-length grid {1,2,3,64,127}x{1,2,62,63} (up to 255 octets); every record sequence of length <=2 (thorough <=3) over {A, AAAA, CNAME, PTR, MX, TXT} x every section placement; the stored entry (question name, A/AAAA/CNAME/PTR records) must equal the values fed to the builder; pointer chains of depth 1..4; 16 malformed shapes (pointer loops, pointers past the end, labels 64..191, truncated/overrunning records) and every truncation of one instance per shape must be rejected with an error; mDNS A/AAAA host names in every section; NBNS node status names. (b) merge algebra, complete: all 162x162 NameEntry pairs, and every update sequence of length <=3 over 3 names through each of the five Host.Update*Name on a real host, and every update sequence of length 3 over two addresses of one MAC (the MAC level entry never loses an attribute). distinct non-trivial = distinct messages / entry pairs"
 	c.Res.Assumptions = []string{"ground truth = the values handed to the independent builder (golang.org/x/net/dns/dnsmessage) or to the raw reference builder", "ProcessDNS records the answer section only (as the code documents); authority/additional records are expected to be ignored by it"}
 	e := &c17Env{}
 	unit := 0
@@ -513,6 +513,9 @@ func c17Rest(c *core.Ctx, e *c17Env, next func() bool) {
 	}
 	// merge algebra
 	c17Merge(c, e, next)
+	if next() {
+		c17TwoHosts(c, e)
+	}
 	c.Sample(map[string]any{"question": "www.example.com", "records": []string{"cname(answer)", "a(answer)", "aaaa(additional)"}, "compression": true}, 8)
 	c.Sample(map[string]any{"malformed": "question-2cycle"}, 8)
 }
@@ -751,6 +754,56 @@ func c17Merge(c *core.Ctx, e *c17Env, next func() bool) {
 	}
 }
 
+// c17TwoHosts: update sequences over TWO addresses of one MAC (a dual stack station). The MAC level entry, which is
+// what notifications report, must never lose a non-empty attribute whichever address learns a name.
+func c17TwoHosts(c *core.Ctx, e *c17Env) {
+	s := e.session()
+	f1, _ := s.Parse(frame4(env.MAC1, ip4a))
+	f2, _ := s.Parse(frame6(env.MAC1, lla1))
+	if f1.Host == nil || f2.Host == nil || f1.Host.MACEntry != f2.Host.MACEntry {
+		c.Violate("merge|setup", "two addresses of one MAC do not share a MAC entry", c17Replay{Kind: "merge2"})
+		return
+	}
+	hosts := []*packet.Host{f1.Host, f2.Host}
+	me := f1.Host.MACEntry
+	names := []packet.NameEntry{{Type: "t", Name: "a"}, {Type: "t", Name: "b", Model: "m"}, {Type: "t", Name: "a", Manufacturer: "mf", OS: "os"}}
+	upd := []func(h *packet.Host, n packet.NameEntry){
+		func(h *packet.Host, n packet.NameEntry) { h.UpdateDHCP4Name(n) },
+		func(h *packet.Host, n packet.NameEntry) { h.UpdateMDNSName(n) },
+		func(h *packet.Host, n packet.NameEntry) { h.UpdateSSDPName(n) },
+		func(h *packet.Host, n packet.NameEntry) { h.UpdateLLMNRName(n) },
+		func(h *packet.Host, n packet.NameEntry) { h.UpdateNBNSName(n) },
+	}
+	macName := []func() *packet.NameEntry{
+		func() *packet.NameEntry { return &me.DHCP4Name }, func() *packet.NameEntry { return &me.MDNSName }, func() *packet.NameEntry { return &me.SSDPName },
+		func() *packet.NameEntry { return &me.LLMNRName }, func() *packet.NameEntry { return &me.NBNSName },
+	}
+	for src := 0; src < 5; src++ {
+		for code := 0; code < 6*6*6; code++ {
+			for _, h := range hosts {
+				*h = packet.Host{Addr: h.Addr, MACEntry: h.MACEntry, Online: h.Online, HuntStage: h.HuntStage, LastSeen: h.LastSeen, Manufacturer: h.Manufacturer}
+			}
+			*macName[src]() = packet.NameEntry{}
+			x := code
+			var trace []string
+			for step := 0; step < 3; step++ {
+				hi, ni := x%6/3, x%3
+				x /= 6
+				c.Count("evaluations", 1)
+				c.Count("update_steps", 1)
+				before := *macName[src]()
+				upd[src](hosts[hi], names[ni])
+				after := *macName[src]()
+				trace = append(trace, fmt.Sprintf("addr%d<-%+v", hi+1, names[ni]))
+				if (before.Name != "" && after.Name == "") || (before.Model != "" && after.Model == "") || (before.Manufacturer != "" && after.Manufacturer == "") || (before.OS != "" && after.OS == "") {
+					c.Violate("merge|mac-entry-erased", fmt.Sprintf("name source %d, updates %v: the MAC level entry lost an attribute: %+v -> %+v", src, trace, before, after), c17Replay{Kind: "merge2", Args: []int{src, code}})
+					break
+				}
+			}
+		}
+	}
+}
+
 func c17Replayer(data []byte) string {
 	var r c17Replay
 	if jsonUnmarshal(data, &r) != nil {
@@ -773,6 +826,12 @@ func c17Replayer(data []byte) string {
 		c := core.NewCtx("C17", "quick", "replay", 0, 1, "")
 		n := 0
 		c17Merge(c, e, func() bool { n++; return n > len(c17Entries()) })
+		if len(c.Res.Violations) > 0 {
+			return c.Res.Violations[0].What
+		}
+	case "merge2":
+		c := core.NewCtx("C17", "quick", "replay", 0, 1, "")
+		c17TwoHosts(c, e)
 		if len(c.Res.Violations) > 0 {
 			return c.Res.Violations[0].What
 		}
